@@ -121,6 +121,43 @@ def alloc_to_apply(ctx, prog, lm, rid):
     return n_fa
 
 
+def name_parts(e):
+    """The variable parts of a formatted file name: the operands of the fmt::Argument constructors below the origin tree `e`."""
+    return [x[2][0] for x in flow.walk(e) if x[0] == 'call' and re.search(r'fmt::(rt::)?Argument(<.*>)?::new_\w+$', x[1]) and x[2]]
+
+
+def is_file_id(e):
+    return e[0] == 'call' and e[1].endswith('HnswBackend::file_id') and not e[2]
+
+
+def snapshot_file_identity(ctx, prog, rid, cs):
+    """C09.R7: two snapshotters never share a file."""
+    o = flow.Origin(cs)
+    saves = cs.calls_to('Snapshot::save')
+    if len(saves) != 1:
+        ctx.missing(rid, 'create_snapshot: exactly one Snapshot::save (found %d)' % len(saves))
+        return
+    path = o.of_operand(saves[0].args[1])
+    parts = name_parts(path)
+    ok = len(parts) == 1 and is_file_id(parts[0])
+    ctx.inst(rid, cs.short, 'the snapshot file is named by an id minted for this call (file_id()), not by anything the snapshot contains', ok,
+             'Snapshot::save(%s): variable part(s) of the name: %s%s' % (flow.render(path)[-150:], [flow.render(x)[-110:] for x in parts], '' if ok else
+             ' — two snapshots whose content-derived number coincides (same second, same sequence) write the same temp file and the same final name; the one that loses the '
+             'staleness test then unlinks the file the MANIFEST points to'))
+    # what the stale branch unlinks is exactly the file this call saved
+    rms = []
+    for c in cs.calls_to('std::fs::remove_file'):
+        t = o.of_operand(c.args[0])
+        if any(x[0] == 'call' and re.search(r'Iterator>::next$', x[1]) for x in flow.walk(t)):
+            continue   # the unlink loop over the covered segments (C01.R4)
+        rms.append((c, t))
+    if not rms:
+        ctx.missing(rid, 'create_snapshot: removal of the stale candidate file')
+    for c, t in rms:
+        ctx.inst(rid, cs.short, 'the stale branch unlinks the file this call saved and nothing else', t == path,
+                 'remove_file(%s) vs Snapshot::save(%s)' % (flow.render(t)[-120:], flow.render(path)[-120:]))
+
+
 def gate_sections(ctx, prog, lm, rid):
     """C09.R6: slot lookup, log append and in-memory apply of a mutator are inside ONE write-gate critical section (identity of the acquisition, as in manifest_rmw).
     Returns the number of append sites examined."""
@@ -327,5 +364,11 @@ def run(ctx, prog):
                        'applies entries in file order, so a writer that releases the gate between its append and its apply can be overtaken by another writer of the '
                        'same id: the live collection ends with one version, the restart with the other (and both start from the same overwritten slot)')
     n_sec = gate_sections(ctx, prog, lm, 'C09.R6')
+    # ------------------------------------------------------------------ R7
+    ctx.rule('C09.R7', 'a stale snapshot never replaces a newer one ON DISK either: snapshotters run concurrently (the exclusive lock covers only the copy), each saves its file '
+                       'before the staleness test and the loser unlinks its own file — so the file name must be an id minted for this call by file_id() (the generator of '
+                       'every name in the data directory), not a function of the snapshot\'s content (its second-resolution timestamp or its sequence number can coincide '
+                       'for two racing snapshots), and the stale branch must unlink exactly the path this call saved')
+    snapshot_file_identity(ctx, prog, 'C09.R7', cs)
     ctx.floor('C09.R6', 'log appends inside the write-gate section of the mutators', n_sec, 5, 'insert ×2 (entry, compensating delete), delete, update_metadata, batch_delete')
     ctx.stat('functions_analysed', len(set(i['key'].split(' | ')[1] for i in ctx.instances)))
